@@ -260,6 +260,15 @@ func (s *stubServer) sendConflict() {
 				ghostRU = map[string]any{"old": row} // delete of a row it does not hold
 			} else {
 				ru = map[string]any{"insert": row}
+				if s.r.Intn(2) == 0 {
+					// the row arrives again as initial contents, with other values
+					changed := map[string]any{}
+					for k, v := range row {
+						changed[k] = v
+					}
+					changed["rank"] = 424242
+					ru = map[string]any{"initial": changed}
+				}
 				ghostRU = map[string]any{"modify": map[string]any{}}
 			}
 			tu := map[string]any{table: map[string]any{uuid: ru}}
